@@ -122,7 +122,7 @@ def worker(chunk):
             if f is None:
                 continue
             r = f(tr, sem if infrag and 'error' not in sem else None)
-            if r and (infrag or pid in item.get('monitors_everywhere', ())):
+            if r and (infrag or pid in monitors.EVERYWHERE):
                 viol[pid] = r[:3]
         if tr.get('lock_slow_path'):
             div = div or {'why': 'asyncio.Lock took its slow path (the model assumes it never does)', 'at': -1}
@@ -191,19 +191,21 @@ def corpus_items(monitors_=None):
 
 # per-property exploration profile: which programs / schedules / monitors decide it
 PROFILES = {
-    'C01': dict(monitors=['C01'], profiles=('plain', 'switch', 'oneof', 'rec', 'mixed', 'shared'), q=420, t=6000),
-    'C02': dict(monitors=['C02'], profiles=('plain', 'switch', 'oneof', 'rec', 'mixed', 'shared'), q=420, t=6000,
+    'C01': dict(monitors=['C01'], profiles=('plain', 'switch', 'oneof', 'rec', 'mixed', 'shared'), q=1800, t=20000),
+    'C02': dict(monitors=['C02'], profiles=('plain', 'switch', 'oneof', 'rec', 'mixed', 'shared'), q=1800, t=20000,
                 fail_p=0.3),
-    'C03': dict(monitors=['C03'], profiles=('plain', 'switch', 'oneof', 'rec', 'mixed', 'shared'), q=420, t=6000),
-    'C04': dict(monitors=['C04'], profiles=('plain', 'shared', 'mixed', 'switch', 'oneof', 'rec'), q=420, t=6000),
-    'C05': dict(monitors=['C05'], profiles=('plain', 'oneof', 'mixed', 'switch', 'rec', 'shared'), q=420, t=6000,
+    'C03': dict(monitors=['C03'], profiles=('plain', 'switch', 'oneof', 'rec', 'mixed', 'shared'), q=1800, t=20000),
+    'C04': dict(monitors=['C04'], profiles=('shared', 'mixed', 'rec', 'shared', 'mixed', 'switch', 'oneof', 'plain'), q=1800, t=20000),
+    'C05': dict(monitors=['C05'], profiles=('plain', 'oneof', 'mixed', 'switch', 'rec', 'shared'), q=1800, t=20000,
                 fail_p=0.35),
-    'C09': dict(monitors=['C09', 'C01'], profiles=('switch', 'mixed', 'shared'), q=360, t=5000),
-    'C10': dict(monitors=['C10', 'C01'], profiles=('oneof', 'mixed', 'shared'), q=360, t=5000, fail_p=0.3),
-    'C11': dict(monitors=['C11', 'C01', 'C03'], profiles=('rec', 'mixed', 'shared'), q=360, t=5000),
-    'C14': dict(monitors=['C14'], profiles=('plain', 'switch', 'oneof', 'rec', 'mixed', 'shared'), q=420, t=6000,
+    'C09': dict(monitors=['C09', 'C01'], profiles=('switch', 'mixed', 'shared'), q=1800, t=20000),
+    'C10': dict(monitors=['C10', 'C01'], profiles=('oneof', 'mixed', 'shared'), q=1800, t=20000, fail_p=0.3),
+    'C11': dict(monitors=['C11', 'C01', 'C03'], profiles=('rec', 'mixed', 'shared'), q=1800, t=20000),
+    'C13': dict(monitors=['C13'], profiles=('plain', 'switch', 'oneof', 'rec', 'mixed', 'shared'), q=500, t=5000,
+                cancel=True),
+    'C14': dict(monitors=['C14'], profiles=('plain', 'switch', 'oneof', 'rec', 'mixed', 'shared'), q=1800, t=20000,
                 fail_p=0.3),
-    'C19': dict(monitors=['C19'], profiles=('plain', 'switch', 'oneof', 'mixed', 'shared'), q=420, t=6000),
+    'C19': dict(monitors=['C19'], profiles=('plain', 'switch', 'oneof', 'mixed', 'shared'), q=1800, t=20000),
 }
 
 SCHED_TEXT = ('generated programs (profile cycle {profiles}; 3–8 declared nodes + synthetic nodes; random retry / default / '
@@ -246,6 +248,14 @@ def main_for(pid, tier_):
     items = corpus_items(prof['monitors']) + general_items(
         C.seed(), n, tier_, profiles=prof['profiles'], monitors_=prof['monitors'], enum_limit=enum,
         fail_p=prof.get('fail_p', 0.15), n_max=8 if tier_ == 'quick' else 10)
+    if prof.get('cancel'):
+        # C13: the caller is cancelled before every loop handle of a base schedule (exhaustive per run)
+        rng = random.Random(C.seed() * 31 + 13)
+        for it in items:
+            if 'spec' in it:
+                it['schedules'] = it['schedules'][:1] + [['cancel_all', 5, 0.3, 0]]
+            else:
+                it['schedules'] = it['schedules'][:2] + [['cancel_all', rng.randrange(1 << 30), rng.choice([0.0, 0.3]), 0]]
     recs = run_items(items)
     return finish(pid, tier_, recs, aud, T, prof, SCHED_TEXT.format(profiles=prof['profiles'], enum=enum))
 
